@@ -1,6 +1,6 @@
 (* C20 — results depend only on current inputs: no mutation, aliasing or stale state. *)
 From Coq Require Import Arith List Bool.
-From OQ Require Import Model.Cache Proofs.CacheSpec.
+From OQ Require Import Model.Cache Proofs.CacheSpec Model.Holder Proofs.HolderSpec.
 Import ListNotations.
 
 (* (1) For EVERY sequence of constructions, parameter updates, memoised calls and copies (any
@@ -40,3 +40,36 @@ Theorem shallow_copy_refuted :
   <> spec_run nat nat (fun p a => p * 10 + a) [] [New nat 1; Copy nat 0; Set_ nat 0 2; Call nat 1 3].
 Proof. vm_compute. discriminate. Qed.
 Print Assumptions shallow_copy_refuted.
+
+(* (3) objects built from the caller's arrays keep their own values.  The caller allocates arrays, overwrites them in
+   place, hands them to constructors and computes with the objects, in ANY order and number (any value and result
+   types, any computation g): with copying constructors (np.array(x): the code as repaired) every computation returns
+   g of the value that the array handed to the constructor held AT THE TIME OF THAT CALL.  The specification is stated
+   over the history only (last Alloc / Write before the constructor call), it does not mention the state. *)
+Theorem holders_snapshot :
+  forall (V R : Type) (g : V -> R) (ops : list (hop V)),
+    hrun V R g (hinit V) ops = spec_answers V R g ops.
+Proof. exact HolderSpec.holders_snapshot. Qed.
+Print Assumptions holders_snapshot.
+
+(* in words: overwriting the array after the constructor call is invisible to the object built from it *)
+Theorem later_write_invisible :
+  forall (V R : Type) (g : V -> R) (pre : list (hop V)) a v i,
+    last (hrun V R g (hinit V) (pre ++ [Build V a; Compute V i])) None =
+    last (hrun V R g (hinit V) (pre ++ [Build V a; Write V a v; Compute V i])) None.
+Proof. exact HolderSpec.later_write_invisible. Qed.
+Print Assumptions later_write_invisible.
+
+Example holders_example :
+  hrun nat nat (fun v => v) (hinit nat)
+    [Alloc nat 1; Build nat 0; Write nat 0 2; Compute nat 0; Build nat 0; Alloc nat 3; Write nat 1 4; Build nat 1; Compute nat 1; Compute nat 2; Compute nat 0; Build nat 7; Compute nat 3]
+  = [None; None; None; Some 1; None; None; None; None; Some 2; Some 4; Some 1; None; None].
+Proof. reflexivity. Qed.
+
+(* constructors that keep a reference to the caller's buffer (Tempo, MeanFieldTempo, Control.add_single,
+   TwoTimeBathCorrelations before 814fcb3) violate it *)
+Theorem aliasing_holder_refuted :
+  alias_run nat nat (fun v => v) (alias_init nat) [Alloc nat 1; Build nat 0; Write nat 0 2; Compute nat 0]
+  <> spec_answers nat nat (fun v => v) [Alloc nat 1; Build nat 0; Write nat 0 2; Compute nat 0].
+Proof. exact HolderSpec.alias_refuted. Qed.
+Print Assumptions aliasing_holder_refuted.
